@@ -859,6 +859,19 @@ def from_shorthand(shorthand_string, slash=None):
     shorthand_string = shorthand_string.replace("-", "m")
     shorthand_string = shorthand_string.replace("maj", "M")
     shorthand_string = shorthand_string.replace("ma", "M")
+    return _from_shrunk_shorthand(shorthand_string, slash)
+
+
+def _from_shrunk_shorthand(shorthand_string, slash=None):
+    """The chord for a shorthand whose aliases have been shrunk already.
+
+    The parts of a slash chord or polychord come back here, so that every
+    part is shrunk exactly once and means what it means on its own.
+    """
+    if shorthand_string in ["NC", "N.C."]:
+        return []
+    if shorthand_string == "":
+        raise FormatError("Empty chord shorthand")
 
     # Get the note name
     if not notes.is_valid_note(shorthand_string[0]):
@@ -885,15 +898,15 @@ def from_shorthand(shorthand_string, slash=None):
             slash_index = s
         elif n == "|":
             # Generate polychord
-            return from_shorthand(
+            return _from_shrunk_shorthand(
                 shorthand_string[: len(name) + s],
-                from_shorthand(shorthand_string[len(name) + s + 1 :]),
+                _from_shrunk_shorthand(shorthand_string[len(name) + s + 1 :]),
             )
         s += 1
 
     # Generate slash chord
     if slash_index != -1 and rest_of_string not in ["m/M7", "6/9", "6/7"]:
-        res = from_shorthand(
+        res = _from_shrunk_shorthand(
             shorthand_string[: len(name) + slash_index],
             shorthand_string[len(name) + slash_index + 1 :],
         )
